@@ -10,6 +10,11 @@ package main
 //	[prov=mem: a provider whose Acquire does not depend on its context (default: provider.NewNum, which stops handing out ammo once the run is cancelled)]
 //	an instance that cannot be created, at each of the three points of newInstance (j = 0-based creation attempt):
 //	[failgun=<j>: NewGun fails] [failbind=<j>: gun.Bind fails] [failsched=<j>: NewRPSSchedule fails (perinst=1 only)]
+//	round 3: [closeerr=1: every gun's Close returns an error] [panicshot=<id>:<n>: the n-th Shoot of the gun bound with InstanceID id panics]
+//	[provret=<ms> | proverr=<ms>: Provider.Run returns nil / an error at that instant while it still has ammo (prov=mem only)]
+//	[aggrerr=<ms>: Aggregator.Run returns an error at that instant] [failwarm=1: the pool's warm-up gun cannot be created]
+//	failsched=<j> without perinst=1: the j-th call of NewRPSSchedule fails (j = 0: the shared schedule cannot be built, nothing may start)
+//	rps parts may also be unlim:MS (schedule.NewUnlimited) and composites
 //	<pool> || <pool> ...         several pools in ONE engine (cancel= is taken from the first); the observation is one
 //	                             observation per pool joined by " || "; a failing pool makes the engine cancel the run of the others
 //
@@ -24,6 +29,9 @@ package main
 //	lastshot=<instant at which the last Shoot began, -1 = none> gunctx=<first instant at which a gun, shooting or being closed, saw the context
 //	it was given in GunDeps done, -1 = never> (cut `cancel` of a pool = the caller's cancel or the failure of ANOTHER pool of the engine)
 //	allawaited=<the `awaited` of the pool's log line "All instances runs awaited." (checkAllInstancesAreFinished went through), -1 = not seen>
+//	shots=<InstanceID:number of Shoot calls of the gun bound with it,...> (by id) rpstot=<tokens of a drained copy of the RPS profile, -1 = not
+//	countable (an unlimited part)> rpsmin=<ns, see rpsMin> rpsspans=<first Next call:first "finished" answer,... of every RPS schedule object
+//	that has reported its end> (cut `fail` = an instance could not be created or the provider / aggregator failed; cut `panic` = a gun panicked)
 
 import (
 	"context"
@@ -62,6 +70,7 @@ type rec struct {
 	fails    int
 	lastShot int64
 	gunCtx   int64
+	shots    map[int64]int64
 }
 
 func (r *rec) cut(kind string) {
@@ -92,16 +101,36 @@ func (s *startSched) Next() (time.Time, bool) {
 	return ts, ok
 }
 
-// RPS schedule wrapper: records the first instant at which the schedule says it is finished
+// RPS schedule wrapper: records the first instant at which the schedule says it is finished, and for every schedule object the
+// instants of its first Next call (its start) and of its first "finished" answer
 type rpsSched struct {
 	core.Schedule
-	r *rec
+	r     *rec
+	mu    sync.Mutex
+	first int64 // -1: Next not called yet
+	fin   int64 // -1: not finished yet
+}
+
+func (s *rpsSched) finished() {
+	s.r.cut("rps")
+	t := s.r.clk.Now()
+	s.mu.Lock()
+	if s.fin < 0 {
+		s.fin = t
+	}
+	s.mu.Unlock()
 }
 
 func (s *rpsSched) Next() (time.Time, bool) {
+	t := s.r.clk.Now()
+	s.mu.Lock()
+	if s.first < 0 {
+		s.first = t
+	}
+	s.mu.Unlock()
 	ts, ok := s.Schedule.Next()
 	if !ok {
-		s.r.cut("rps")
+		s.finished()
 	}
 	return ts, ok
 }
@@ -109,9 +138,41 @@ func (s *rpsSched) Next() (time.Time, bool) {
 func (s *rpsSched) Left() int {
 	l := s.Schedule.Left()
 	if l == 0 {
-		s.r.cut("rps")
+		s.finished()
 	}
 	return l
+}
+
+// rpsMin: a lower bound (ns) for the time between the first Next call on an RPS profile and its first "finished" answer that needs
+// no knowledge of how many instances draw from it: the durations of all parts up to and including the last UNLIMITED part (an
+// unlimited part hands out tokens until its end, and a composite starts a part at the finish time of the previous one); 0 when
+// there is no unlimited part (tokens of the other kinds are handed out ahead of their time)
+func rpsMin(p string) int64 {
+	flat := strings.NewReplacer("[", "", "]", "").Replace(p)
+	var sum, upTo int64
+	for _, seg := range strings.Split(flat, "+") {
+		f := strings.Split(seg, ":")
+		ms := int64(0)
+		switch f[0] {
+		case "const", "constm":
+			ms, _ = strconv.ParseInt(f[2], 10, 64)
+		case "unlim":
+			ms, _ = strconv.ParseInt(f[1], 10, 64)
+		case "step":
+			from, _ := strconv.ParseInt(f[1], 10, 64)
+			to, _ := strconv.ParseInt(f[2], 10, 64)
+			st, _ := strconv.ParseInt(f[3], 10, 64)
+			d, _ := strconv.ParseInt(f[4], 10, 64)
+			for i := from + st; i <= to; i += st {
+				ms += d
+			}
+		}
+		sum += ms
+		if f[0] == "unlim" {
+			upTo = sum
+		}
+	}
+	return upTo * 1_000_000
 }
 
 // provider wrapper: records the first failed Acquire
@@ -134,9 +195,28 @@ type memProvider struct {
 	limit int64 // <= 0: unlimited
 	mu    sync.Mutex
 	n     int64
+	// Run returns after retAfter (> 0) although ammo is left: nil, or an error (fail)
+	retAfter time.Duration
+	fail     bool
+	r        *rec
 }
 
-func (p *memProvider) Run(ctx context.Context, _ core.ProviderDeps) error { <-ctx.Done(); return nil }
+func (p *memProvider) Run(ctx context.Context, _ core.ProviderDeps) error {
+	var tm <-chan time.Time
+	if p.retAfter > 0 {
+		tm = time.After(p.retAfter)
+	}
+	select {
+	case <-ctx.Done():
+		return nil
+	case <-tm:
+		if p.fail {
+			p.r.cut("fail")
+			return errors.New("provider failed")
+		}
+		return nil
+	}
+}
 func (p *memProvider) Acquire() (core.Ammo, bool) {
 	p.mu.Lock()
 	defer p.mu.Unlock()
@@ -154,6 +234,10 @@ type recGun struct {
 	id       int64
 	failBind bool
 	ctx      context.Context
+	closeErr bool
+	panicID  int64 // the gun bound with this InstanceID …
+	panicAt  int64 // … panics in its panicAt-th Shoot (0: never)
+	nshots   int64
 }
 
 func (g *recGun) Bind(_ core.Aggregator, deps core.GunDeps) error {
@@ -191,7 +275,13 @@ func (g *recGun) Shoot(core.Ammo) {
 	if t > g.r.lastShot {
 		g.r.lastShot = t
 	}
+	g.r.shots[g.id]++
 	g.r.mu.Unlock()
+	g.nshots++
+	if g.panicAt > 0 && g.id == g.panicID && g.nshots == g.panicAt {
+		g.r.cut("panic")
+		panic("gun failure")
+	}
 	if g.resp > 0 {
 		time.Sleep(g.resp)
 	}
@@ -206,13 +296,31 @@ func (g *recGun) Close() error {
 	g.r.mu.Lock()
 	g.r.exits = append(g.r.exits, [2]int64{g.id, t})
 	g.r.mu.Unlock()
+	if g.closeErr {
+		return errors.New("gun cannot be closed")
+	}
 	return nil
 }
 
-type nopAggr struct{}
+type nopAggr struct {
+	errAfter time.Duration // > 0: Run returns an error at that instant
+	r        *rec
+}
 
-func (nopAggr) Run(ctx context.Context, _ core.AggregatorDeps) error { <-ctx.Done(); return nil }
-func (nopAggr) Report(core.Sample)                                   {}
+func (a nopAggr) Run(ctx context.Context, _ core.AggregatorDeps) error {
+	var tm <-chan time.Time
+	if a.errAfter > 0 {
+		tm = time.After(a.errAfter)
+	}
+	select {
+	case <-ctx.Done():
+		return nil
+	case <-tm:
+		a.r.cut("fail")
+		return errors.New("aggregator failed")
+	}
+}
+func (nopAggr) Report(core.Sample) {}
 
 // splitTop splits at '+' outside brackets
 func splitTop(p string) []string {
@@ -257,6 +365,8 @@ func buildProfile(p string) core.Schedule {
 			parts = append(parts, schedule.NewConstConf(schedule.ConstConfig{Ops: float64(n(1)), Duration: time.Duration(n(2)) * time.Millisecond}))
 		case f[0] == "constm" && len(f) == 3:
 			parts = append(parts, schedule.NewConstConf(schedule.ConstConfig{Ops: float64(n(1)) / 1000, Duration: time.Duration(n(2)) * time.Millisecond}))
+		case f[0] == "unlim" && len(f) == 2:
+			parts = append(parts, schedule.NewUnlimitedConf(schedule.UnlimitedConfig{Duration: time.Duration(n(1)) * time.Millisecond}))
 		case f[0] == "step" && len(f) == 5:
 			parts = append(parts, schedule.NewInstanceStepConf(schedule.InstanceStepConfig{From: n(1), To: n(2), Step: n(3), StepDuration: time.Duration(n(4)) * time.Millisecond}))
 		default:
@@ -291,11 +401,27 @@ type poolCase struct {
 	m     map[string]string
 	r     *rec
 	ctoks []int64
-	conf  engine.InstancePoolConfig
+	// tokens of a drained copy of the RPS profile; -1: not countable
+	rpsTot int64
+	rpsMu  sync.Mutex
+	rpss   []*rpsSched
+	conf   engine.InstancePoolConfig
 }
 
 func newPoolCase(id string, m map[string]string) *poolCase {
-	pc := &poolCase{id: id, m: m, r: &rec{cuts: map[string]int64{}, lastShot: -1, gunCtx: -1}}
+	pc := &poolCase{id: id, m: m, r: &rec{cuts: map[string]int64{}, lastShot: -1, gunCtx: -1, shots: map[int64]int64{}}}
+	if strings.Contains(m["rps"], "unlim") {
+		pc.rpsTot = -1
+	} else {
+		rc := buildProfile(m["rps"])
+		rc.Start(time.Unix(1_700_000_000, 0))
+		for pc.rpsTot < 1000000 {
+			if _, ok := rc.Next(); !ok {
+				break
+			}
+			pc.rpsTot++
+		}
+	}
 	// token offsets of the startup profile, from a drained copy
 	base := time.Unix(1_700_000_000, 0)
 	cp := buildProfile(m["startup"])
@@ -318,6 +444,17 @@ func newPoolCase(id string, m map[string]string) *poolCase {
 	failsched := atoiKV(m, "failsched", -1)
 	gundelay := time.Duration(atoiKV(m, "gundelay", 0)) * time.Millisecond
 	perinst := m["perinst"] == "1"
+	closeErr := m["closeerr"] == "1"
+	failwarm := m["failwarm"] == "1"
+	panicID, panicAt := int64(-1), int64(0)
+	if ps, ok := m["panicshot"]; ok {
+		f := strings.Split(ps, ":")
+		if len(f) != 2 {
+			panic("bad panicshot")
+		}
+		panicID, _ = strconv.ParseInt(f[0], 10, 64)
+		panicAt, _ = strconv.ParseInt(f[1], 10, 64)
+	}
 	attempt := func() {
 		t := r.clk.Now()
 		r.mu.Lock()
@@ -332,7 +469,14 @@ func newPoolCase(id string, m map[string]string) *poolCase {
 	}
 	var prov core.Provider = provider.NewNum(ammo)
 	if m["prov"] == "mem" {
-		prov = &memProvider{limit: int64(ammo)}
+		mp := &memProvider{limit: int64(ammo), r: r}
+		if v := atoiKV(m, "provret", 0); v > 0 {
+			mp.retAfter = time.Duration(v) * time.Millisecond
+		}
+		if v := atoiKV(m, "proverr", 0); v > 0 {
+			mp.retAfter, mp.fail = time.Duration(v)*time.Millisecond, true
+		}
+		prov = mp
 	}
 	var gunCalls int64 = -1 // the first NewGun call is the warm-up gun of the pool
 	var schedCalls int64
@@ -340,7 +484,7 @@ func newPoolCase(id string, m map[string]string) *poolCase {
 	pc.conf = engine.InstancePoolConfig{
 		ID:         id,
 		Provider:   &recProvider{Provider: prov, r: r},
-		Aggregator: nopAggr{},
+		Aggregator: nopAggr{errAfter: time.Duration(atoiKV(m, "aggrerr", 0)) * time.Millisecond, r: r},
 		NewGun: func() (core.Gun, error) {
 			gunMu.Lock()
 			n := gunCalls
@@ -352,11 +496,11 @@ func newPoolCase(id string, m map[string]string) *poolCase {
 			if n >= 0 && gundelay > 0 {
 				time.Sleep(gundelay) // a gun that takes time to create: the first instance is created synchronously by the start loop
 			}
-			if n >= 0 && n == failgun {
+			if (n >= 0 && n == failgun) || (n < 0 && failwarm) {
 				failed()
 				return nil, errors.New("gun cannot be created")
 			}
-			return &recGun{r: r, resp: resp, id: -1, failBind: n >= 0 && n == failbind}, nil
+			return &recGun{r: r, resp: resp, id: -1, failBind: n >= 0 && n == failbind, closeErr: closeErr, panicID: panicID, panicAt: panicAt}, nil
 		},
 		RPSPerInstance: perinst,
 		NewRPSSchedule: func() (core.Schedule, error) {
@@ -371,8 +515,22 @@ func newPoolCase(id string, m map[string]string) *poolCase {
 					failed()
 					return nil, errors.New("schedule cannot be created")
 				}
+			} else if failsched >= 0 {
+				// the shared schedule: built once, by buildNewInstanceSchedule, before anything is started
+				gunMu.Lock()
+				n := schedCalls
+				schedCalls++
+				gunMu.Unlock()
+				if n == failsched {
+					failed()
+					return nil, errors.New("schedule cannot be created")
+				}
 			}
-			return &rpsSched{Schedule: buildProfile(m["rps"]), r: r}, nil
+			rs := &rpsSched{Schedule: buildProfile(m["rps"]), r: r, first: -1, fin: -1}
+			pc.rpsMu.Lock()
+			pc.rpss = append(pc.rpss, rs)
+			pc.rpsMu.Unlock()
+			return rs, nil
 		},
 		StartupSchedule: &startSched{Schedule: buildProfile(m["startup"]), r: r},
 	}
@@ -452,6 +610,9 @@ func run(input string) string {
 	for i, pc := range pools {
 		pc.r.mu.Lock()
 		ft, failedHere := pc.r.cuts["fail"]
+		if pt, panicked := pc.r.cuts["panic"]; panicked && (!failedHere || pt < ft) {
+			ft, failedHere = pt, true
+		}
 		pc.r.mu.Unlock()
 		if !failedHere {
 			continue
@@ -545,15 +706,33 @@ func (pc *poolCase) observation(logs *observer.ObservedLogs, e string, end int64
 		exits = append(exits, fmt.Sprintf("%d:%d:%s", x[0], x[1], rs))
 	}
 	var cuts []string
-	for _, k := range []string{"ammo", "rps", "cancel", "fail"} {
+	for _, k := range []string{"ammo", "rps", "cancel", "fail", "panic"} {
 		if t, ok := r.cuts[k]; ok {
 			cuts = append(cuts, fmt.Sprintf("%s:%d", k, t))
 		}
 	}
-	return fmt.Sprintf("k=%d err=%s end=%d mstart=%d fails=%d total=%d started=%d starterr=%s running=%d ids=%s toks=%s picks=%s ctoks=%s guns=%s binds=%s exits=%s cuts=%s jitter=%d lastshot=%d gunctx=%d allawaited=%d",
+	var shots []string
+	for _, id := range ids {
+		shots = append(shots, fmt.Sprintf("%d:%d", id, r.shots[id]))
+	}
+	var spans []string
+	pc.rpsMu.Lock()
+	for _, rs := range pc.rpss {
+		rs.mu.Lock()
+		if rs.fin >= 0 {
+			first := rs.first
+			if first < 0 || first > rs.fin {
+				first = rs.fin // "finished" before the first token was asked for
+			}
+			spans = append(spans, fmt.Sprintf("%d:%d", first, rs.fin))
+		}
+		rs.mu.Unlock()
+	}
+	pc.rpsMu.Unlock()
+	return fmt.Sprintf("k=%d err=%s end=%d mstart=%d fails=%d total=%d started=%d starterr=%s running=%d ids=%s toks=%s picks=%s ctoks=%s guns=%s binds=%s exits=%s cuts=%s jitter=%d lastshot=%d gunctx=%d allawaited=%d shots=%s rpstot=%d rpsmin=%d rpsspans=%s",
 		len(r.binds), e, end, int64(len(r.binds))+extraStarts, r.fails, len(pc.ctoks), started, starterr, len(r.binds)-len(r.exits), joinInts(ids),
 		joinInts(r.toks), joinInts(r.picks), joinInts(pc.ctoks), joinInts(r.guns), strings.Join(binds, ","), strings.Join(exits, ","), strings.Join(cuts, ","), jitter,
-		r.lastShot, r.gunCtx, allAwaited)
+		r.lastShot, r.gunCtx, allAwaited, strings.Join(shots, ","), pc.rpsTot, rpsMin(pc.m["rps"]), strings.Join(spans, ","))
 }
 
 // startup profiles with every token at a multiple of 1 s (so that causes can be placed 500 ms away from every token)
@@ -595,7 +774,7 @@ func genStartupFree(r *rand.Rand) string {
 			st := 1 + r.Intn(4)
 			ps = append(ps, fmt.Sprintf("step:%d:%d:%d:%d", f, f+r.Intn(4*st+1), st, 100*(1+r.Intn(6))))
 		case 4: // a fractional rate: one instance every 2 s / 4 s / 1.6 s (possibly no token at all)
-			ps = append(ps, fmt.Sprintf("constm:%d:%d", []int{500, 250, 625, 1500}[r.Intn(4)], 500*(1+r.Intn(8))))
+			ps = append(ps, fmt.Sprintf("constm:%d:%d", []int{500, 250, 625, 1500, 2500, 1250}[r.Intn(6)], 250*(1+r.Intn(16))))
 		default:
 			ps = append(ps, fmt.Sprintf("const:0:%d", 100*(1+r.Intn(10))))
 		}
@@ -651,8 +830,54 @@ func withCause(r *rand.Rand, su string, kind, cutAt int) string {
 		return fmt.Sprintf("startup=%s rps=const:10:12000 ammo=0 resp=0 failgun=%d cancel=7000", su, r.Intn(5))
 	case 5: // per-instance RPS profiles that end while the startup goes on: that ends instances, not instance start
 		return fmt.Sprintf("startup=%s rps=const:10:%d perinst=1 ammo=0 resp=0", su, 300+100*r.Intn(10))
+	case 9: // guns whose Close fails; short per-instance / shared profiles (composite ones too) that are fired to the end
+		return fmt.Sprintf("startup=%s rps=%s%s ammo=0 resp=0 closeerr=1", su, genRps(r, 300+100*r.Intn(8)), []string{"", " perinst=1"}[r.Intn(2)])
+	case 10: // a gun panics in its n-th shot: the pool fails
+		return fmt.Sprintf("startup=%s rps=const:10:12000%s ammo=0 resp=0 panicshot=%d:%d", su, []string{"", " perinst=1"}[r.Intn(2)], r.Intn(3), 1+cutAt/100)
+	case 11: // the provider returns early (with or without an error) / the aggregator fails
+		switch r.Intn(3) {
+		case 0:
+			return fmt.Sprintf("startup=%s rps=const:10:7500 ammo=0 resp=0 prov=mem provret=%d", su, cutAt)
+		case 1:
+			return fmt.Sprintf("startup=%s rps=const:10:12000 ammo=0 resp=0 prov=mem proverr=%d", su, cutAt)
+		default:
+			return fmt.Sprintf("startup=%s rps=const:10:12000 ammo=0 resp=0 aggrerr=%d", su, cutAt)
+		}
+	case 12: // two instances cannot be created (two errors reach the pool) / the pool cannot even begin
+		switch r.Intn(4) {
+		case 0:
+			return fmt.Sprintf("startup=%s rps=const:10:12000 ammo=0 resp=0 failsched=0", su)
+		case 1:
+			return fmt.Sprintf("startup=%s rps=const:10:12000 ammo=0 resp=0 failwarm=1", su)
+		default:
+			a := r.Intn(3)
+			return fmt.Sprintf("startup=%s rps=const:10:12000 ammo=0 resp=0 failgun=%d failbind=%d", su, a, a+1+r.Intn(2))
+		}
+	case 13: // composite RPS profiles, shared or per instance, ammo unlimited or running out first: every token / every ammo is fired
+		return fmt.Sprintf("startup=%s rps=%s%s ammo=%d resp=0", su, genRps(r, 500+100*r.Intn(10)), []string{"", " perinst=1"}[r.Intn(2)], []int{0, 0, 7 + r.Intn(30)}[r.Intn(3)])
 	default: // per-instance RPS profiles, ammo runs out
 		return fmt.Sprintf("startup=%s rps=const:20:12000 perinst=1 ammo=%d resp=0", su, cutAt/50+1)
+	}
+}
+
+// nCauses: the kinds of withCause (6 is also the default)
+const nCauses = 14
+
+// genRps: an RPS profile of about durMs with a countable number of tokens: plain, with a pause in the middle, with a burst first,
+// nested
+func genRps(r *rand.Rand, durMs int) string {
+	rate := []int{10, 20, 40}[r.Intn(3)]
+	switch r.Intn(5) {
+	case 0:
+		return fmt.Sprintf("const:%d:%d+const:0:%d+const:%d:%d", rate, durMs/3, durMs/3, rate, durMs/3)
+	case 1:
+		return fmt.Sprintf("once:%d+const:%d:%d", 1+r.Intn(4), rate, durMs)
+	case 2:
+		return fmt.Sprintf("[const:%d:%d+once:%d]+const:0:%d+once:%d", rate, durMs/2, 1+r.Intn(3), durMs/2, 1+r.Intn(3))
+	case 3:
+		return fmt.Sprintf("const:0:%d+const:%d:%d", durMs/2, rate, durMs/2)
+	default:
+		return fmt.Sprintf("const:%d:%d", rate, durMs)
 	}
 }
 
@@ -735,7 +960,43 @@ func gen(r *rand.Rand, tier string) []string {
 		"startup=const:1:3000 rps=const:10:10000 ammo=0 resp=0 failgun=1 || startup=step:1:4:1:1000 rps=const:10:10000 ammo=0 resp=0",
 		"startup=const:2:2000 rps=const:10:10000 ammo=0 resp=5 cancel=1200 || startup=once:3 rps=const:10:10000 perinst=1 ammo=0 resp=0 || startup=[const:0:2000+once:2] rps=const:10:10000 ammo=0 resp=0",
 	}
-	n, nfree, npools := 12, 4, 2
+	out = append(out,
+		// round 3 — how MANY shots: every instance fires its whole per-instance profile; the instances together fire every token of
+		// the shared profile (composite profiles, an unlimited part in the middle); ammo running out first: every ammo is fired
+		"startup=once:3 rps=const:10:500+const:0:300+once:3 ammo=0 resp=0",
+		"startup=step:1:3:1:300 rps=once:2+const:0:200+const:10:500 perinst=1 ammo=0 resp=0",
+		"startup=once:2 rps=[const:10:300+unlim:200]+once:2 ammo=0 resp=5",
+		"startup=step:1:2:1:300 rps=unlim:600 perinst=1 ammo=0 resp=10",
+		"startup=once:2 rps=unlim:400+const:10:300 ammo=0 resp=10",
+		"startup=once:3 rps=const:20:10000 perinst=1 ammo=30 resp=0",
+		"startup=once:4 rps=const:40:1000 ammo=25 resp=0",
+		"startup=once:2+const:0:400+once:1 rps=const:20:600 perinst=1 ammo=0 resp=0 prov=mem",
+		// guns whose Close fails: that is logged, never a reason to stop anything
+		"startup=step:1:3:1:400 rps=const:10:500 perinst=1 ammo=0 resp=0 closeerr=1",
+		"startup=once:3 rps=const:20:1000 ammo=0 resp=0 closeerr=1",
+		"startup=const:2:1000 rps=const:20:10000 perinst=1 ammo=21 resp=0 closeerr=1",
+		// a gun panics: the instance ends with an error, the pool fails (inside / after the startup window)
+		"startup=once:3 rps=const:20:3000 ammo=0 resp=0 panicshot=1:5",
+		"startup=const:1:3000 rps=const:10:10000 ammo=0 resp=0 panicshot=0:8",
+		// the provider returns early although it has ammo (nothing may stop); the provider / the aggregator FAILS: the pool fails
+		"startup=const:1:3000 rps=const:10:4000 ammo=0 resp=0 prov=mem provret=500",
+		"startup=const:1:3000 rps=const:10:10000 ammo=0 resp=0 prov=mem proverr=1500",
+		"startup=once:2+const:0:1000+once:2 rps=const:10:10000 ammo=0 resp=0 aggrerr=500",
+		// the pool cannot even begin: the shared RPS schedule / the warm-up gun cannot be created — nothing may start
+		"startup=once:3 rps=const:10:1000 ammo=0 resp=0 failsched=0",
+		"startup=once:3 rps=const:10:1000 ammo=0 resp=0 failwarm=1",
+		// two instances cannot be created: two errors reach the pool, the second after it has already failed
+		"startup=once:4 rps=const:10:10000 ammo=0 resp=0 failgun=1 failbind=2",
+		"startup=const:2:2000 rps=const:10:10000 perinst=1 ammo=0 resp=0 failsched=1 failbind=3",
+		// more instances than the pool's result buffer (64), all finishing at once
+		"startup=once:70 rps=once:70 ammo=0 resp=0",
+		"startup=once:40+const:0:300+once:40 rps=const:10:10000 ammo=0 resp=0 cancel=800",
+		// fractional rates whose float arithmetic is exact: 2.5 instances/s for 1 s (tokens at 0 and 0.4 s; the third would be at 0.8 s
+		// but 2.5 x 1 s is 2), then 0.625/s for 3.25 s (tokens at 0 and 1.6 s after the first part)
+		"startup=constm:2500:1000+constm:625:3250 rps=const:10:5000 ammo=0 resp=0",
+		"startup=constm:500:1000+once:1 rps=const:10:2000 ammo=0 resp=0",
+	)
+	n, nfree, npools := 14, 6, 2
 	if tier == "thorough" {
 		n, nfree, npools = 1000, 800, 150
 		// exhaustive small grid: every profile shape x every cause x every position of the cause
@@ -763,13 +1024,13 @@ func gen(r *rand.Rand, tier string) []string {
 		if r.Intn(3) == 0 {
 			su = nest(r, su, 1+r.Intn(2))
 		}
-		out = append(out, withCause(r, su, r.Intn(9), cutAt))
+		out = append(out, withCause(r, su, r.Intn(nCauses), cutAt))
 	}
 	for i := 0; i < npools; i++ {
 		out = append(out, genPools(r))
 	}
 	for i := 0; i < nfree; i++ {
-		out = append(out, withCause(r, genStartupFree(r), r.Intn(9), 100*(1+r.Intn(40))))
+		out = append(out, withCause(r, genStartupFree(r), r.Intn(nCauses), 100*(1+r.Intn(40))))
 	}
 	return out
 }
